@@ -27,6 +27,8 @@ type FeatureLocal struct {
 	muxWriteReceived       sync.Mutex
 	writeApprovalReceived  map[string]map[model.MsgCounterType]int
 	pendingWriteApprovals  map[string]map[model.MsgCounterType]*time.Timer
+	// the writing remote feature of each pending write, needed to drop the writes of a removed remote entity
+	pendingWriteSources map[string]map[model.MsgCounterType]*model.FeatureAddressType
 
 	bindings      []*model.FeatureAddressType // bindings to remote features
 	subscriptions []*model.FeatureAddressType // subscriptions to remote features
@@ -45,6 +47,7 @@ func NewFeatureLocal(id uint, entity api.EntityLocalInterface, ftype model.Featu
 		responseMsgCallback:   make(map[model.MsgCounterType][]func(result api.ResponseMessage)),
 		writeApprovalReceived: make(map[string]map[model.MsgCounterType]int),
 		pendingWriteApprovals: make(map[string]map[model.MsgCounterType]*time.Timer),
+		pendingWriteSources:   make(map[string]map[model.MsgCounterType]*model.FeatureAddressType),
 		writeTimeout:          defaultMaxResponseDelay,
 	}
 
@@ -201,6 +204,7 @@ func (r *FeatureLocal) addPendingApproval(msg *api.Message) {
 		r.muxResponseCB.Lock()
 		_, pending := r.pendingWriteApprovals[ski][*msg.RequestHeader.MsgCounter]
 		delete(r.pendingWriteApprovals[ski], *msg.RequestHeader.MsgCounter)
+		delete(r.pendingWriteSources[ski], *msg.RequestHeader.MsgCounter)
 		r.muxResponseCB.Unlock()
 
 		// the write was already handled or its connection was removed in the meantime
@@ -216,6 +220,12 @@ func (r *FeatureLocal) addPendingApproval(msg *api.Message) {
 		r.pendingWriteApprovals[ski] = make(map[model.MsgCounterType]*time.Timer)
 	}
 	r.pendingWriteApprovals[ski][*msg.RequestHeader.MsgCounter] = newTimer
+	if msg.FeatureRemote != nil {
+		if _, ok := r.pendingWriteSources[ski]; !ok {
+			r.pendingWriteSources[ski] = make(map[model.MsgCounterType]*model.FeatureAddressType)
+		}
+		r.pendingWriteSources[ski][*msg.RequestHeader.MsgCounter] = msg.FeatureRemote.Address()
+	}
 	r.muxResponseCB.Unlock()
 }
 
@@ -273,6 +283,7 @@ func (r *FeatureLocal) ApproveOrDenyWrite(msg *api.Message, err model.ErrorType)
 	r.muxResponseCB.Lock()
 	defer r.muxResponseCB.Unlock()
 	delete(r.pendingWriteApprovals[ski], *msg.RequestHeader.MsgCounter)
+	delete(r.pendingWriteSources[ski], *msg.RequestHeader.MsgCounter)
 
 	if err.ErrorNumber == 0 {
 		r.processWrite(msg)
@@ -303,7 +314,37 @@ func (r *FeatureLocal) CleanWriteApprovalCaches(ski string) {
 	}
 
 	delete(r.pendingWriteApprovals, ski)
+	delete(r.pendingWriteSources, ski)
 	delete(r.writeApprovalReceived, ski)
+}
+
+// Remove the writes of a removed remote entity that are waiting for approval,
+// the entity lost its bindings and with them the authorisation to write
+func (r *FeatureLocal) cleanWriteApprovalsOfEntity(remoteAddress *model.EntityAddressType) {
+	// same lock order as ApproveOrDenyWrite
+	r.muxWriteReceived.Lock()
+	defer r.muxWriteReceived.Unlock()
+
+	r.muxResponseCB.Lock()
+	defer r.muxResponseCB.Unlock()
+
+	for ski, sources := range r.pendingWriteSources {
+		for msgCounter, source := range sources {
+			if source == nil || source.Device == nil ||
+				*source.Device != *remoteAddress.Device ||
+				!reflect.DeepEqual(source.Entity, remoteAddress.Entity) {
+				continue
+			}
+
+			// no timeout result and no late approval for this write
+			if timer, ok := r.pendingWriteApprovals[ski][msgCounter]; ok && timer != nil {
+				timer.Stop()
+			}
+			delete(r.pendingWriteApprovals[ski], msgCounter)
+			delete(r.writeApprovalReceived[ski], msgCounter)
+			delete(sources, msgCounter)
+		}
+	}
 }
 
 // Remove subscriptions and bindings from local cache for a remote device
@@ -348,6 +389,8 @@ func (r *FeatureLocal) CleanRemoteEntityCaches(remoteAddress *model.EntityAddres
 		remoteAddress.Entity == nil {
 		return
 	}
+
+	r.cleanWriteApprovalsOfEntity(remoteAddress)
 
 	r.mux.Lock()
 	defer r.mux.Unlock()
